@@ -90,6 +90,20 @@ if prop in ('C01', 'C02', 'C04'):
         json.dump({'property': prop, 'obligation': 'bounded harness', 'reason': 'the merge harness no longer builds or runs against the current tree', 'output': (p.stdout + p.stderr)[-4000:]}, open(rp, 'w'), indent=1)
         print(f'VIOLATION property={prop} replay={rp} no-failing-input-found')
         sys.exit(1)
+    if prop == 'C02':
+        res['violating'] = res.get('violating') or []
+        # same enumeration on a document created without a counter value, every replica incrementing by the same
+        # amount: two concurrent updates that differ in nothing but their identity must both be counted
+        env2 = dict(env, VERIF_MERGE_NOPOINTS='1', VERIF_BOUND_L='2', VERIF_BOUND_RANDOM='0' if tier != 'thorough' else '60')
+        pn, resn = gotest('^TestGovcBoundedMerge$', env2, 1500)
+        if resn is None:
+            res.setdefault('violating', []).append({'history': 'merge harness, document created without a counter value', 'problems': ['C02: the harness did not run: ' + (pn.stdout + pn.stderr)[-600:]]})
+        else:
+            for v in resn.get('violating') or []:
+                v['history'] = '[VERIF_MERGE_NOPOINTS=1: created without a counter value, every increment is +5] ' + v['history']
+                res.setdefault('violating', []).append(v)
+            res['cases'] += resn['cases']
+        bound += '; the same enumeration (length <= 2) on a document created without a counter value where every replica increments by the same amount'
     mine = []
     for v in res.get('violating') or []:
         probs = [q for q in v['problems'] if q.startswith(prop + ':') or q.startswith(prop + '/')]
@@ -124,7 +138,7 @@ if prop in ('C01', 'C02', 'C04'):
         rp = f'{V}/replays/{prop}/bounded-history-{i+1}.json'
         os.makedirs(os.path.dirname(rp), exist_ok=True)
         json.dump({'property': prop, 'obligation': 'bounded stand-in for the merge walk', 'history': h, 'problems': probs,
-                   'replay_cmd': f"VERIF_BOUND_K=3 VERIF_HISTORIES='{h}' go test -overlay <harness overlay> -vet=off -run '^TestGovcHistory$' ./internal/db"}, open(rp, 'w'), indent=1)
+                   'replay_cmd': ("VERIF_MERGE_NOPOINTS=1 " if h.startswith('[VERIF_MERGE_NOPOINTS') else "") + f"VERIF_BOUND_K=3 VERIF_HISTORIES='{h.split('] ')[-1]}' go test -overlay <harness overlay> -vet=off -run '^TestGovcHistory$' ./internal/db"}, open(rp, 'w'), indent=1)
         lines.append(f'VIOLATION property={prop} replay={rp}')
 
 if prop == 'C03':
@@ -288,9 +302,9 @@ if prop == 'C10':
     passed = re.findall(r'--- PASS: (TestGovcC10_\w+)', out)
     failed = re.findall(r'--- FAIL: (TestGovcC10_\w+)', out)
     hung = re.findall(r'panic: test timed out', out)
-    bound = 'six fixed scenarios: a document private to identity 1, requests by identity 2 and by an anonymous requester: plain query, commits, commits by docID, latestCommits, showDeleted (must return the public documents and must return at all); the owner still sees its history'
+    bound = 'seven fixed scenarios: a document private to identity 1, requests by identity 2 and by an anonymous requester: plain query, commits, commits by docID, latestCommits, showDeleted (must return the public documents and must return at all); the owner still sees its history; an identity with update but without read permission on an indexed collection'
     summary.update({'bound': bound, 'cases': len(passed) + len(failed) + len(hung), 'distinct_nontrivial': len(passed) + len(failed) + len(hung), 'exhaustive': False, 'violating_histories': len(failed) + len(hung)})
-    if failed or hung or len(passed) < 6:
+    if failed or hung or len(passed) < 7:
         rp = f'{V}/replays/{prop}/bounded-history-1.json'
         os.makedirs(os.path.dirname(rp), exist_ok=True)
         json.dump({'property': prop, 'obligation': 'bounded stand-in: access-control scenarios', 'failed': failed, 'timed_out': bool(hung), 'passed': passed, 'output': out[-3000:],
@@ -386,7 +400,7 @@ if prop == 'C08':
         print(f'VIOLATION property={prop} replay={rp} no-failing-input-found')
         sys.exit(1)
     fl += res2.get('problems') or []
-    summary['bound'] += '; listing laws: order + limit + offset = slice of the ordered listing, _count = number of listed rows, _sum/_min/_max/_avg = arithmetic over the listed non-null values (the average under limit/offset only when no value is null), groups partition the listing and _count/_sum of a group are over its members; 5 filters x 4 orders x 7 limit/offset pairs, plain and indexed (%d evaluations)' % res2['cases']
+    summary['bound'] += '; listing laws: order + limit + offset = slice of the ordered listing, _count = number of listed rows, _sum/_min/_max/_avg = arithmetic over the listed non-null values (the average under limit/offset only when no value is null), groups partition the listing and _count/_sum of a group are over its members, several aggregates of one group with different filters are each computed over their own filtered members (3 x 3 filter pairs, both orders of appearance); 5 filters x 4 orders x 7 limit/offset pairs, plain and indexed (%d evaluations)' % res2['cases']
     summary['cases'] += res2['cases']
     summary['distinct_nontrivial'] = summary['cases']
     summary['violating_histories'] = len(fl)
@@ -396,6 +410,77 @@ if prop == 'C08':
         json.dump({'property': prop, 'obligation': 'bounded stand-in: filter laws', 'problems': fl[:12], 'replay_cmd': "go test -overlay <harness overlay> -vet=off -run '^TestGovcC08FilterLaws$' ./internal/db"}, open(rp, 'w'), indent=1)
         lines.append(f'VIOLATION property={prop} replay={rp}')
         violations.append(('filter laws', fl[:3]))
+
+if prop == 'C16':
+    import glob, re
+    summary['function'] = 'concurrent collection calls, requests, index changes and incoming merges on one node, under the race detector (go test -race -overlay on real in-memory badger nodes); schedules are whatever the Go scheduler produces in the repeated runs - a bounded sample, not a proof'
+    files = {f'/repo/internal/db/{os.path.basename(f)}': f for f in glob.glob(f'{V}/harness/race/*.go')}
+    rounds = 1 if tier != 'thorough' else 5
+    summary['bound'] = ('%d run(s) under -race of: 20 rounds x 16 goroutines creating documents on one shared concurrent transaction; 10 rounds x 24 goroutines (create / increment / delete / filtered request) on one shared concurrent transaction; 6 rounds x 37 goroutines with own transactions (12 counter increments of one document, 12 creates, 12 requests, index create+drop); 16 merge events for one document published at once. Checked: no race report, no panic, every call that reported success has its effect, the counter is the sum of the successful increments' % rounds)
+    def racerun(env):
+        o = {'Replace': dict(files)}
+        if os.environ.get('GOVC_OVERLAY'):
+            o['Replace'].update(json.load(open(os.environ['GOVC_OVERLAY']))['Replace'])
+        ovp = f'{work}/overlay-{prop}-{os.getpid()}-race.json'
+        json.dump(o, open(ovp, 'w'))
+        e = dict(os.environ, GOFLAGS='-mod=mod', GOPROXY='off', **env)
+        p = subprocess.run(['go', 'test', '-race', '-overlay', ovp, '-vet=off', '-count=%d' % rounds, '-timeout', '1500s', '-run', '^TestGovcC16', '-v', './internal/db'],
+                           cwd='/repo', env=e, capture_output=True, text=True)
+        os.remove(ovp)
+        return p
+    def races(out):
+        # (report text, frames of /repo or its dependencies at the racing accesses)
+        res = []
+        for blk in out.split('WARNING: DATA RACE')[1:]:
+            blk = blk.split('==================')[0]
+            tops = re.findall(r'^(?:Read at|Write at|Previous read at|Previous write at)[^\n]*\n((?:  [^\n]*\n      [^\n]*\n)+)', blk, re.M)
+            frames = []
+            for tp in tops:
+                fr = [l.strip() for l in tp.split('\n') if l.startswith('  ') and not l.startswith('      ')]
+                frames.append(next((f for f in fr if not f.startswith('runtime.') and not f.startswith('sync')), fr[0] if fr else '?'))
+            res.append((blk[:3000], frames))
+        return res
+    kfs = [k for k in json.load(open(f'{V}/known_findings.json')) if k['property'] == prop and k.get('kind') == 'race-site' and k.get('status') != 'fixed']
+    def known_site(frames):
+        for k in kfs:
+            if frames and all(any(s in f for s in k['frames']) for f in frames):
+                return k
+        return None
+    p = racerun({})
+    out = p.stdout + p.stderr
+    ran = len(re.findall(r'^(?:--- PASS|--- FAIL): TestGovcC16', out, re.M))
+    summary['cases'] = ran
+    summary['distinct_nontrivial'] = ran
+    if ran == 0:
+        rp = f'{V}/replays/{prop}/bounded-harness.json'
+        os.makedirs(os.path.dirname(rp), exist_ok=True)
+        json.dump({'property': prop, 'obligation': 'bounded harness', 'reason': 'the race harness no longer builds or runs against the current tree', 'output': out[-4000:]}, open(rp, 'w'), indent=1)
+        print(f'VIOLATION property={prop} replay={rp} no-failing-input-found')
+        sys.exit(1)
+    problems = []
+    for text, frames in races(out):
+        k = known_site(frames)
+        if k is None:
+            problems.append({'what': 'data race at ' + ' / '.join(frames), 'report': text})
+    for m in re.finditer(r'^\s+zz_c16[^\n]*C16 VIOLATED: ([^\n]*)$', out, re.M):
+        problems.append({'what': m.group(1).strip()})
+    for m in re.finditer(r'^(fatal error: [^\n]*|panic: [^\n]*)$', out, re.M):
+        problems.append({'what': m.group(1), 'report': out[out.find(m.group(1)):][:3000]})
+    if p.returncode != 0 and not problems and not any(True for _ in races(out)):
+        problems.append({'what': 'the race harness failed', 'report': out[-3000:]})
+    summary['violating_histories'] = len(problems)
+    # probes of the listed race sites (the warm-up that avoids them in the runs above is switched off)
+    for k in kfs:
+        pk = racerun(dict(k.get('probe_env') or {}))
+        hit = any(known_site(fr) is k for _, fr in races(pk.stdout + pk.stderr))
+        lines.append(f"KNOWN-FINDING: property={prop} {k['what']} [{k['id']}; {'reproduced' if hit else 'not reproduced'} in this run]")
+    if problems:
+        rp = f'{V}/replays/{prop}/bounded-race-1.json'
+        os.makedirs(os.path.dirname(rp), exist_ok=True)
+        json.dump({'property': prop, 'obligation': 'bounded stand-in: concurrent calls under the race detector', 'problems': problems[:8],
+                   'replay_cmd': "go test -race -overlay <overlay of /verif/harness/race> -vet=off -run '^TestGovcC16' ./internal/db"}, open(rp, 'w'), indent=1)
+        lines.append(f'VIOLATION property={prop} replay={rp}')
+        violations.append(('race harness', [q['what'] for q in problems[:3]]))
 
 summary['wall_s'] = round(time.time() - t0, 1)
 json.dump(summary, open(f'{work}/{prop}.json', 'w'), indent=1)
